@@ -44,8 +44,13 @@ Read == issued' = issued /\ now' = now /\ Commit
 Tick == \E d \in Int : d >= 0 /\ now' = now + d /\ issued' = issued /\ counter' = counter /\ Keep
 Crash == issued' = durable /\ counter' = 0 /\ durable' = durable /\ now' = now /\ lastCommit' = now
 
+\* an operation that raises: no write; it may or may not flush
+FailedOp == issued' = issued /\ now' = now /\ (Commit \/ (counter' = counter /\ Keep))
+\* first creation beside a legacy database: bucket row + n migrated events, committed before the counter starts at 0
+Migrate == \E n \in Int : n >= 0 /\ issued = 0 /\ issued' = 1 + n /\ now' = now /\ Commit
+
 Init == issued = 0 /\ durable = 0 /\ counter = 0 /\ now = 0 /\ lastCommit = 0
-Next == EventWrite \/ BucketOp \/ Read \/ Tick \/ Crash
+Next == EventWrite \/ BucketOp \/ Read \/ Tick \/ Crash \/ FailedOp \/ Migrate
 
 IndInv == /\ counter = issued - durable
           /\ counter >= 0 /\ counter <= Threshold
